@@ -23,6 +23,11 @@ CONSTANTS
     AllowUnknown, \* TRUE: the server may use UnknownId (duplicates are always possible)
     CheckType,    \* TRUE: reply type is checked against the request (the code)
     FailAll,      \* TRUE: a reply with an unknown id fails every outstanding request (the code)
+    Ends,         \* ways the session may end with requests outstanding: subset of
+                  \* {"exit", "peer_close", "eof_mid", "conn_lost", "disconnect",
+                  \*  "oserror", "brokenpipe"}
+    EndLeavesWaiters, \* TRUE: an unclean loss of the connection does not run the
+                  \* clean-up, the callers keep waiting (sensitivity)
     DropLate      \* TRUE: the reply to a request whose caller was cancelled is dropped
                   \* silently (the code); FALSE: it is treated like an unknown id
 
@@ -42,16 +47,17 @@ VARIABLES
     nrep,       \* replies sent so far
     sent,       \* history: set of ids for which some reply was sent
     badId,      \* history: some reply carried an id with no entry in the table
+    ended,      \* "no", or how the session ended (exit, loss of the connection, ...)
     lbl
 
-vars == <<kind, waiting, cancelled, outcome, closed, nrep, sent, badId, lbl>>
-view == <<kind, waiting, cancelled, outcome, closed, nrep, sent, badId>>
+vars == <<kind, waiting, cancelled, outcome, closed, nrep, sent, badId, ended, lbl>>
+view == <<kind, waiting, cancelled, outcome, closed, nrep, sent, badId, ended>>
 
 Init ==
     /\ kind \in [Ids -> Kinds]
     /\ waiting = Ids /\ cancelled = {}
     /\ outcome = [i \in Ids |-> <<"none">>]
-    /\ closed = FALSE /\ nrep = 0 /\ sent = {} /\ badId = FALSE
+    /\ closed = FALSE /\ nrep = 0 /\ sent = {} /\ badId = FALSE /\ ended = "no"
     /\ lbl = <<"init">>
 
 Legal(k, t) == t \in {"ok", "err"} \/ t = k       \* k = "status": only status replies
@@ -80,7 +86,7 @@ Reply(i, t) ==
     /\ lbl' = <<"reply", i, t>>
     /\ sent' = sent \cup {i}
     /\ badId' = (badId \/ i \notin waiting)
-    /\ UNCHANGED <<kind, cancelled>>
+    /\ UNCHANGED <<kind, cancelled, ended>>
     /\ IF i \in waiting /\ i \notin cancelled
        THEN /\ waiting' = waiting \ {i}
             /\ outcome' = [outcome EXCEPT ![i] = Resolve(i, t)]
@@ -99,12 +105,26 @@ Cancel(i) ==
     /\ cancelled' = cancelled \cup {i}
     /\ outcome' = [outcome EXCEPT ![i] = <<"cancelled">>]
     /\ lbl' = <<"cancel", i>>
-    /\ UNCHANGED <<kind, waiting, closed, nrep, sent, badId>>
+    /\ UNCHANGED <<kind, waiting, closed, nrep, sent, badId, ended>>
+
+\* the session ends (the receive loop of the handler leaves through one of its
+\* except clauses and runs _cleanup): every caller still waiting gets the error
+End(e) ==
+    /\ ~closed /\ e \in Ends
+    /\ lbl' = <<"end", e>>
+    /\ ended' = e /\ closed' = TRUE
+    /\ IF EndLeavesWaiters /\ e \in {"conn_lost", "disconnect"}
+       THEN UNCHANGED <<waiting, outcome>>
+       ELSE /\ waiting' = {}
+            /\ outcome' = [j \in Ids |-> IF j \in waiting /\ j \notin cancelled
+                                          THEN <<"lost">> ELSE outcome[j]]
+    /\ UNCHANGED <<kind, cancelled, nrep, sent, badId>>
 
 Next ==
     \/ \E i \in Ids \cup (IF AllowUnknown THEN {UnknownId} ELSE {}), t \in ReplyTypes :
             Reply(i, t)
     \/ \E i \in Ids : Cancel(i)
+    \/ \E e \in Ends : End(e)
 
 Spec == Init /\ [][Next]_vars
 
@@ -125,7 +145,9 @@ WaitsIffUnanswered ==
 \* one request's fate does not end the session: only a reply whose id has no
 \* entry in the table does (in particular not the late reply to a request
 \* whose caller was cancelled)
-EndsOnlyOnBadId == closed => badId
+EndsOnlyOnBadId == closed => (badId \/ ended # "no")
+\* however the session ends, nobody is left waiting
+AllResolvedAtEnd == ended # "no" => \A i \in Ids : outcome[i] # <<"none">>
 \* an outcome, once delivered, never changes (exactly one reply is consumed)
 ExactlyOnce == [][\A i \in Ids : outcome[i] \notin {<<"none">>} => outcome'[i] = outcome[i]]_vars
 \* a late reply to a cancelled request changes nothing for anybody
